@@ -99,6 +99,11 @@ type Exec struct {
 	ID           int
 	ModelHits    int
 	InitSkipped []string
+	GlobalNames  map[ObjID]string
+	raceSeen     map[string]int
+	noTrack      bool
+	TwoPass      bool
+	Pass1Preempt int
 	Params       map[string]int64
 	MaxPaths     int
 	SampleMax    int
@@ -281,7 +286,7 @@ func (ex *Exec) load(st *State, p Ptr) Value {
 	if p.Obj == 0 {
 		ex.goPanic(st, "nil pointer dereference")
 	}
-	ex.globalAccess(st, p.Obj, false, fmt.Sprintf("obj%d", p.Obj))
+	ex.globalAccess(st, p.Obj, sub0(p), false)
 	if p.Sym != nil {
 		arr := getPath(st.Heap.get(p.Obj).V, p.Path).(Array)
 		return ex.selectTree(p.Sym, func(i int) *smt.Term { return arr[p.SymOff+i].(*smt.Term) }, 0, p.SymN)
@@ -293,7 +298,7 @@ func (ex *Exec) store(st *State, p Ptr, v Value) {
 	if p.Obj == 0 {
 		ex.goPanic(st, "nil pointer dereference")
 	}
-	ex.globalAccess(st, p.Obj, true, fmt.Sprintf("obj%d", p.Obj))
+	ex.globalAccess(st, p.Obj, sub0(p), true)
 	o := st.Heap.get(p.Obj)
 	if p.Sym != nil {
 		arr := append(Array(nil), getPath(o.V, p.Path).(Array)...)
@@ -348,7 +353,13 @@ func (ex *Exec) report(st *State, kind, msg string, extra *smt.Term) {
 	var kns []kn
 	notKnown := C.True
 	for name, k := range st.Known {
-		if strings.Contains(full, k.Label) {
+		match := false
+		for _, alt := range strings.Split(k.Label, "|") {
+			if alt != "" && strings.Contains(full, alt) {
+				match = true
+			}
+		}
+		if match {
 			kns = append(kns, kn{name, k.Cond})
 			notKnown = C.And(notKnown, C.Not(k.Cond))
 		}
@@ -557,6 +568,7 @@ func (ex *Exec) worker(id int) (*Exec, error) {
 	w.IntrHit = map[string]int64{}
 	w.PathEnds = map[string]int{}
 	w.Samples = nil
+	w.raceSeen = nil
 	w.NontrivPaths = 0
 	w.parallel = true
 	w.Paths, w.Instrs, w.Forks, w.Obligations, w.Trivial, w.ModelHits = 0, 0, 0, 0, 0, 0
@@ -1058,6 +1070,7 @@ func (ex *Exec) step(st *State, fr *Frame, in ssa.Instruction) bool {
 		ex.curSite = ex.site(in.Pos())
 		ex.visible(st, "go")
 		ng := &G{ID: len(st.Gs)}
+		ex.hbFork(st, st.g(), ng)
 		st.Gs = append(st.Gs, ng)
 		cur := st.Cur
 		st.Cur = ng.ID
@@ -1176,6 +1189,7 @@ func (ex *Exec) send(st *State, fr *Frame, in *ssa.Send) bool {
 		ex.goPanic(st, "send on closed channel")
 	}
 	v := ex.get(st, fr, in.X)
+	ex.hbRelease(st, fmt.Sprintf("ch%d", c.Obj))
 	if len(cd.Buf) < cd.Cap {
 		cd.Buf = append(cd.Buf, v)
 		ex.wake(st, c.Obj, GBlockedRecv)
@@ -1198,6 +1212,7 @@ func (ex *Exec) recv(st *State, fr *Frame, in *ssa.UnOp, c ChanRef) bool {
 	cd := ex.chanObj(st, c)
 	et := in.X.Type().Underlying().(*types.Chan).Elem()
 	deliver := func(v Value, ok bool) {
+		ex.hbAcquire(st, fmt.Sprintf("ch%d", c.Obj))
 		if in.CommaOk {
 			ex.set(fr, in, Tuple{v, ex.C.BoolConst(ok)})
 		} else {
@@ -1246,4 +1261,11 @@ func (ex *Exec) helperCall(st *State, fn *ssa.Function, args []Value, env []Valu
 	ex.pushFrame(st, fn, args, env, nil)
 	st.frame().IsMemo = true
 	return nil, false
+}
+
+func sub0(p Ptr) int {
+	if len(p.Path) > 0 {
+		return p.Path[0]
+	}
+	return -2
 }
